@@ -64,12 +64,22 @@ struct Blit {
   uint64_t c[4] = {0, 0, 0, 0};
   uint64_t alpha = 0;
 };
+// the packed 0xRRGGBBAA overloads are thin wrappers over the per-channel ones: the same events (and specification
+// actions) judge both; g_packed selects them for the next call
+static bool g_packed = false;
+static uint32_t PK(const uint64_t c[4]) { return (uint32_t)(((c[0] & 0xFF) << 24) | ((c[1] & 0xFF) << 16) | ((c[2] & 0xFF) << 8) | (c[3] & 0xFF)); }
 static void do_blit(Image& dst, const Image& src, const Image& mask, const Blit& b) {
   string out = guarded([&] {
     const long* a = b.a;
+    uint64_t bc[4] = {b.c[0], b.c[1], b.c[2], 0x5A};  // the alpha byte of a packed transparent colour is irrelevant
     if (b.op == "blit") dst.blit(src, a[0], a[1], a[2], a[3], a[4], a[5]);
     else if (b.op == "blend") dst.blend_blit(src, a[0], a[1], a[2], a[3], a[4], a[5]);
     else if (b.op == "blenda") dst.blend_blit(src, a[0], a[1], a[2], a[3], a[4], a[5], b.alpha);
+    else if (b.op == "custom" && g_packed)
+      dst.custom_blit(src, a[0], a[1], a[2], a[3], a[4], a[5], [](uint32_t& d, uint32_t sc) {
+        uint32_t dr = (((d >> 24) & 0xFF) + ((sc >> 24) & 0xFF)) % 256, dg = (sc >> 16) & 0xFF, db = (d >> 8) & 0xFF, da = 255 - (sc & 0xFF);
+        d = (dr << 24) | (dg << 16) | (db << 8) | da;
+      });
     else if (b.op == "custom")
       dst.custom_blit(src, a[0], a[1], a[2], a[3], a[4], a[5],
           [](uint64_t& dr, uint64_t& dg, uint64_t& db, uint64_t& da, uint64_t sr, uint64_t sg, uint64_t sb, uint64_t sa) {
@@ -79,6 +89,8 @@ static void do_blit(Image& dst, const Image& src, const Image& mask, const Blit&
             (void)sb;
             da = 255 - sa;
           });
+    else if (b.op == "maskc" && g_packed) dst.mask_blit(src, a[0], a[1], a[2], a[3], a[4], a[5], PK(bc));
+    else if (b.op == "maskd" && g_packed) dst.mask_blit_dst(src, a[0], a[1], a[2], a[3], a[4], a[5], PK(bc));
     else if (b.op == "maskc") dst.mask_blit(src, a[0], a[1], a[2], a[3], a[4], a[5], b.c[0], b.c[1], b.c[2]);
     else if (b.op == "maskd") dst.mask_blit_dst(src, a[0], a[1], a[2], a[3], a[4], a[5], b.c[0], b.c[1], b.c[2]);
     else dst.mask_blit(src, a[0], a[1], a[2], a[3], a[4], a[5], mask);
@@ -113,10 +125,14 @@ static void history(vt::Rng& r, int nops) {
   for (int n = 0; n < nops; n++) {
     uint64_t c[4];
     random_color(r, c);
+    g_packed = r.chance(35);
     switch (r.below(12)) {
       case 0: {
         long x = coord(r, W), y = coord(r, H);
-        string out = guarded([&] { dst.write_pixel(x, y, c[0], c[1], c[2], c[3]); });
+        string out = guarded([&] {
+          if (g_packed) dst.write_pixel(x, y, PK(c));
+          else dst.write_pixel(x, y, c[0], c[1], c[2], c[3]);
+        });
         vt::J j;
         j.str("e", "write").num("x", x).num("y", y).raw("c", col_json(c)).str("out", out).raw("px", px_json(dst));
         tr.emit(j);
@@ -126,7 +142,16 @@ static void history(vt::Rng& r, int nops) {
       case 1: {
         long x = coord(r, W), y = coord(r, H);
         uint64_t p[4] = {0, 0, 0, 0};
-        string out = guarded([&] { dst.read_pixel(x, y, &p[0], &p[1], &p[2], &p[3]); });
+        string out = guarded([&] {
+          if (g_packed) {
+            uint32_t v = dst.read_pixel(x, y);
+            p[0] = v >> 24;
+            p[1] = (v >> 16) & 0xFF;
+            p[2] = (v >> 8) & 0xFF;
+            p[3] = v & 0xFF;
+          } else
+            dst.read_pixel(x, y, &p[0], &p[1], &p[2], &p[3]);
+        });
         vt::J j;
         j.str("e", "read").num("x", x).num("y", y).raw("c", col_json(p)).str("out", out);
         tr.emit(j);
@@ -135,7 +160,10 @@ static void history(vt::Rng& r, int nops) {
       case 2:
       case 3: {
         long x = coord(r, W), y = coord(r, H), w = r.chance(10) ? (long)r.range(-5, 1000000000) : (long)r.range(-2, W + 4), h = (long)r.range(-2, H + 4);
-        string out = guarded([&] { dst.fill_rect(x, y, w, h, c[0], c[1], c[2], c[3]); });
+        string out = guarded([&] {
+          if (g_packed) dst.fill_rect(x, y, w, h, PK(c));
+          else dst.fill_rect(x, y, w, h, c[0], c[1], c[2], c[3]);
+        });
         vt::J j;
         j.str("e", "fill").num("x", x).num("y", y).num("w", w).num("h", h).raw("c", col_json(c)).str("out", out).raw("px", px_json(dst));
         tr.emit(j);
@@ -183,7 +211,9 @@ static void history(vt::Rng& r, int nops) {
         bool horiz = r.chance(50);
         long a1 = (long)r.range(-3, 8), a2 = a1 + (long)r.range(-1, 10), fixed = (long)r.range(-1, 8), dash = (long)r.below(4);
         string out = guarded([&] {
-          if (horiz) dst.draw_horizontal_line(a1, a2, fixed, dash, c[0], c[1], c[2], c[3]);
+          if (horiz && g_packed) dst.draw_horizontal_line(a1, a2, fixed, dash, PK(c));
+          else if (g_packed) dst.draw_vertical_line(fixed, a1, a2, dash, PK(c));
+          else if (horiz) dst.draw_horizontal_line(a1, a2, fixed, dash, c[0], c[1], c[2], c[3]);
           else dst.draw_vertical_line(fixed, a1, a2, dash, c[0], c[1], c[2], c[3]);
         });
         vt::J j;
@@ -204,7 +234,10 @@ static void history(vt::Rng& r, int nops) {
         long x0 = inside ? (long)r.below(W) : (long)r.range(-4, W + 3), y0 = inside ? (long)r.below(H) : (long)r.range(-4, H + 3);
         long x1 = inside ? (long)r.below(W) : (long)r.range(-4, W + 3), y1 = inside ? (long)r.below(H) : (long)r.range(-4, H + 3);
         c[0] = 200;
-        string out = guarded([&] { dst.draw_line(x0, y0, x1, y1, c[0], c[1], c[2], c[3]); });
+        string out = guarded([&] {
+          if (g_packed) dst.draw_line(x0, y0, x1, y1, PK(c));
+          else dst.draw_line(x0, y0, x1, y1, c[0], c[1], c[2], c[3]);
+        });
         vt::J j;
         j.str("e", "line").num("x0", x0).num("y0", y0).num("x1", x1).num("y1", y1).raw("c", col_json(c)).str("out", out).raw("px", px_json(dst));
         tr.emit(j);
@@ -378,6 +411,31 @@ static void clip_invariance(vt::Rng& r, int count) {
     j.str("e", "clipinv").str("op", op).num("w", w).num("h", h).num("m", m).str("out", out).raw("small", px_json(small)).raw("big", px_json(big));
     tr.emit(j);
     tr.nontrivial("clip" + op + to_string(x + 6 * 3 >= w) + to_string(y + 8 * 2 >= h));
+    // the draw_text overloads (packed / per-channel colours, with / without size out-parameters, without background)
+    // must paint the same pixels: the same law with margin 0 compares two equally sized canvases
+    if (i % 4 == 0) {
+      Image c1(w, h, alpha), c2(w, h, alpha);
+      c1.fill_rect(0, 0, w, h, bgc[0], bgc[1], bgc[2], bgc[3]);
+      c2.fill_rect(0, 0, w, h, bgc[0], bgc[1], bgc[2], bgc[3]);
+      static const char* texts[] = {"A", "MW#\nW", "gj|_", "Hi \x7f\x01", "12"};
+      const char* t = texts[r.below(5)];
+      int which = (int)r.below(4);
+      uint32_t fg = 0x102030FF, bg = which == 3 ? 0x00000000 : (r.chance(50) ? 0xC04080FF : 0xC0408080);
+      string out2 = guarded([&] {
+        ssize_t tw = 0, th = 0;
+        c1.draw_text(x, y, fg, bg, "%s", t);
+        switch (which) {
+          case 0: c2.draw_text(x, y, &tw, &th, 0x10, 0x20, 0x30, 0xFF, bg >> 24, (bg >> 16) & 0xFF, (bg >> 8) & 0xFF, bg & 0xFF, "%s", t); break;
+          case 1: c2.draw_text(x, y, 0x10, 0x20, 0x30, 0xFF, bg >> 24, (bg >> 16) & 0xFF, (bg >> 8) & 0xFF, bg & 0xFF, "%s", t); break;
+          case 2: c2.draw_text(x, y, &tw, &th, fg, bg, "%s", t); break;
+          default: c2.draw_text(x, y, fg, "%s", t); break;
+        }
+      });
+      vt::J k;
+      k.str("e", "clipinv").str("op", "draw_text overloads").num("w", w).num("h", h).num("m", 0).str("out", out2).raw("small", px_json(c1)).raw("big", px_json(c2));
+      tr.emit(k);
+      tr.nontrivial("textov" + to_string(which));
+    }
   }
 }
 
